@@ -208,6 +208,7 @@ fn expected_unit_name(described_as: &str) -> &'static str {
 
 static META: Metadata<'static> = Metadata::new("verif", Level::INFO, Some("verif"));
 
+#[derive(Clone)]
 enum Handle {
     C(metrics::Counter),
     G(metrics::Gauge),
@@ -251,9 +252,14 @@ pub struct RegistryGate {
     created: Arc<Mutex<BTreeSet<usize>>>,
 }
 
-fn updater(rec: Rec, log: BLog, plan: Value, ops: Vec<Value>, gate: RegistryGate) {
+/// `held`: handles this thread already owns. In `bridge_reporter` every thread owns a handle of every key and never
+/// goes back to the registry: the readouts are issued by the real reporter task, outside the RegistryGate, and a
+/// registry lookup made while that task sits at a scheduling point inside a readout would block in the
+/// registry's real lock if the readout ever held it exclusively.
+fn updater(rec: Rec, log: BLog, plan: Value, ops: Vec<Value>, gate: RegistryGate, held: Option<BTreeMap<usize, Handle>>) {
     let keys = keys_of(&plan);
-    let mut cache: BTreeMap<usize, Handle> = BTreeMap::new();
+    let no_registry = held.is_some();
+    let mut cache: BTreeMap<usize, Handle> = held.unwrap_or_default();
     let via_local = jb(&plan, "via_local", false);
     for op in &ops {
         let name = js(op, "op", "");
@@ -265,7 +271,7 @@ fn updater(rec: Rec, log: BLog, plan: Value, ops: Vec<Value>, gate: RegistryGate
                 let ki = ju(op, "key", 0) as usize;
                 let Some(spec) = keys.get(ki) else { continue };
                 let fresh = jb(op, "fresh", false);
-                if fresh || !cache.contains_key(&ki) {
+                if (fresh && !no_registry) || !cache.contains_key(&ki) {
                     let _excl = gate.lock.read().unwrap_or_else(|e| e.into_inner());
                     let h = if via_local {
                         // through the thread-local recorder, as the `metrics` macros do
@@ -336,7 +342,7 @@ fn bridge_main(plan: &Value, log: BLog) {
     for (i, t) in ja(plan, "threads").iter().enumerate() {
         let ops: Vec<Value> = t.as_array().cloned().unwrap_or_default();
         let (r2, l2, p2, g2) = (rec.clone(), log.clone(), plan.clone(), gate.clone());
-        hs.push(detsim::thread::spawn_named(&format!("u{}", i + 1), move || updater(r2, l2, p2, ops, g2)));
+        hs.push(detsim::thread::spawn_named(&format!("u{}", i + 1), move || updater(r2, l2, p2, ops, g2, None)));
     }
     let rep_ops: Vec<Value> = ja(plan, "reporter").to_vec();
     let (r2, l2) = (rec.clone(), log.clone());
@@ -1003,16 +1009,17 @@ fn reporter_main(plan: &Value, log: BLog) {
         // every key exists before the reporter task can run (see RegistryGate: creation must not
         // overlap a readout, and here the readouts are not under the harness's control)
         let gate = RegistryGate::default();
+        let mut held: BTreeMap<usize, Handle> = BTreeMap::new();
         for (ki, spec) in keys.iter().enumerate() {
-            let _ = register(&rec, spec);
+            held.insert(ki, register(&rec, spec));
             gate.created.lock().unwrap().insert(ki);
             log.log(BK::RegEnd { key: ki });
         }
         let mut hs = vec![];
         for (i, t) in ja(plan, "threads").iter().enumerate() {
             let ops: Vec<Value> = t.as_array().cloned().unwrap_or_default();
-            let (r2, l2, p2, g2) = (rec.clone(), log.clone(), plan.clone(), gate.clone());
-            hs.push(detsim::thread::spawn_named(&format!("u{}", i + 1), move || updater(r2, l2, p2, ops, g2)));
+            let (r2, l2, p2, g2, h2) = (rec.clone(), log.clone(), plan.clone(), gate.clone(), held.clone());
+            hs.push(detsim::thread::spawn_named(&format!("u{}", i + 1), move || updater(r2, l2, p2, ops, g2, Some(h2))));
         }
         for op in ja(plan, "driver") {
             match js(op, "op", "") {
